@@ -378,7 +378,9 @@ impl<'a> Gen<'a> {
                 // finalizer (and destructor) upgrade that Weak. When the ring is collected it is released by the drop
                 // glue of its owner, i.e. by a plain Cc::drop nested in the collector's drop phase.
                 let u = self.reg();
-                if !regs.contains(&u) {
+                // not in the differential profile of C08: the script resurrects through a Weak, so the run without weak
+                // operations legitimately reclaims something else
+                if !regs.contains(&u) && !self.p.weak_neutral {
                     let peer = regs[1 % k];
                     let dst = if self.rng.chance(1, 2) { Dst::G(self.glob()) } else { Dst::Discard };
                     out.push(Act::New { dst: Dst::R(u), spec: Box::new(Spec { fin: vec![Act::Upgrade { src: WLoc::Of(Own::Me, 1), dst }], drp: vec![DAct::UpgradeW(1)] }) });
@@ -412,9 +414,10 @@ impl<'a> Gen<'a> {
                 // weak back edge
                 out.push(Act::Downgrade { src: Src::R(regs[0]), dst: WLoc::Of(Own::R(regs[k - 1]), 1) });
             }
-            4 => {
+            4 if !self.p.weak_neutral => {
                 // a member's cleaning action holds a Weak to a peer of the same ring and upgrades it when it runs, i.e.
                 // while the ring is being destroyed (or when clean() is called): keeps the result / drops it
+                // (not in the differential profile of C08: a kept result changes what is reachable)
                 let peer = regs[(1) % k];
                 let wr = self.rng.idx(NWR) as u8;
                 out.push(Act::Downgrade { src: Src::R(peer), dst: WLoc::WR(wr) });
